@@ -1,6 +1,8 @@
 package main
 
 import (
+	"net"
+	"io"
 	"bytes"
 	"encoding/binary"
 	"fmt"
@@ -699,6 +701,64 @@ func echoOnce(cl mpx.Client, tag uint64, d time.Duration) string {
 	return ""
 }
 
+// recoveryVanished: the peer is not there at all when the on-demand client makes its first call (the
+// dial is refused), then it is reachable: the call during the outage fails with a non-OK status, the
+// next call succeeds.
+func (w *c09Worker) recoveryVanished(cfg *sessCfg, tag uint64) (tok string, viol []string) {
+	l, err := net.Listen("tcp", "127.0.0.1:0")
+	if err != nil {
+		return "vanished-skipped-listen", nil
+	}
+	addr := l.Addr().String()
+	l.Close()
+	clg := caplog.New()
+	cl := mpx.NewClient(addr, mpx.ClientMode_OnDemand, clg, cfg.opts())
+	defer cl.Close()
+	if bad := echoOnce(cl, tag, 2*time.Second); bad == "" {
+		viol = append(viol, "ok-while-peer-unreachable")
+	}
+	// the peer appears: a forwarder to the real server on the very address the client knows
+	l2, err := net.Listen("tcp", addr)
+	if err != nil {
+		return "vanished-skipped-rebind", viol
+	}
+	defer l2.Close()
+	go func() {
+		for {
+			c, err := l2.Accept()
+			if err != nil {
+				return
+			}
+			go func() {
+				defer c.Close()
+				up, err := net.Dial("tcp", w.srv.Address())
+				if err != nil {
+					return
+				}
+				defer up.Close()
+				go io.Copy(up, c)
+				io.Copy(c, up)
+			}()
+		}
+	}()
+	t0 := time.Now()
+	bad := ""
+	for i := 0; i < 3; i++ {
+		// (three calls: "succeeds again on its next call", with room for one call that was already
+		// under way when the peer appeared)
+		if bad = echoOnce(cl, tag, 3*time.Second); bad == "" {
+			break
+		}
+	}
+	if bad != "" {
+		viol = append(viol, "no-recovery-ondemand-after-unreachable:"+bad)
+	}
+	for _, p := range clg.Panics() {
+		viol = append(viol, "library-panic:client:"+p)
+	}
+	return fmt.Sprintf("vanished-%dms", time.Since(t0).Milliseconds()), viol
+}
+
 // recovery runs a client through the proxy, lets the planned cut hit its connection, and checks
 // that the client works again afterwards.
 func (w *c09Worker) recovery(kind int, cfg *sessCfg, tag uint64, plan cutPlan) (tok string, viol []string) {
@@ -1072,6 +1132,11 @@ func (w *c09Worker) runJob(j c09Job) (string, []string) {
 		tok, v := w.recovery(j.rec, j.cfg, j.tag^0x5555, j.plan)
 		tokens = append(tokens, "rec="+tok)
 		viol = append(viol, v...)
+		if j.rec == recOnDemand {
+			tok, v := w.recoveryVanished(j.cfg, j.tag^0x7777)
+			tokens = append(tokens, "rec2="+tok)
+			viol = append(viol, v...)
+		}
 	}
 	if j.rpc && w.rpc != nil {
 		tok, v := w.rpc.run(j.tag^0xAAAA, j.plan)
